@@ -102,19 +102,19 @@ Proof. exact ins_rel_sublist. Qed.
 Print Assumptions C32_insert_keeps_pages.
 
 (* 5. remove / trim / collect: the result shows exactly the pages of the operation's page-number list
-      (remaining pages in order / selected pages in order / the given list with repetitions), each after
-      ExtractPages' per-page copy; markers always, all attributes when no page depends on an inherited
-      CropBox or a non-positive inherited rotation (xsafe; C33_split_pages_refuted shows this is needed). *)
-Theorem C32_extract_ops_partial : forall o t t' nrs,
+      (remaining pages in order / selected pages in order / the given list with repetitions): markers
+      always, and every attribute (rotation modulo 360, all boxes, inherited ones included) for documents
+      whose pages have a MediaBox (xsafe). *)
+Theorem C32_extract_ops : forall o t t' nrs,
   wf_count t = true -> op_pages o t = Some nrs -> apply_op o t = Ok t' ->
   nrs <> [] /\ in_range (count_of t) nrs = true /\
   ids_of t' = pick_ids (ids_of t) nrs /\
   pages_of t' = map (fun k => xview (nth (Z.to_nat (k - 1)) (rpages t) dflt)) nrs /\
   (Forall xsafe (rpages t) ->
-     pages_of t' = map (fun k => nth (Z.to_nat (k - 1)) (pages_of t) vdflt) nrs) /\
+     npages_of t' = map (fun k => norm_view (nth (Z.to_nat (k - 1)) (pages_of t) vdflt)) nrs) /\
   wf_count t' = true.
 Proof. exact extract_op_spec. Qed.
-Print Assumptions C32_extract_ops_partial.
+Print Assumptions C32_extract_ops.
 
 (* 6. histories: for ANY sequence of operations the marker sequence of the result is the list-level
       specification folded over the history, and the page tree stays well formed. *)
